@@ -29,12 +29,14 @@ FLOORS = {"quick": {"distinct_nontrivial": 1500, "operations_checked": 40000, "s
 LEVEL_TEXT = ("Runtime exploration with a shadow model: every public operation on CHText / chunks is mirrored on a "
               "list of (character, colour) cells with plain str/list semantics; the rendering is read back through "
               "an independent SGR terminal model after each step of each generated history.")
-LEVEL_NOTE = "texts <= ~60 characters, six formatters, histories <= 14 operations; ASCII letters and blanks only"
+LEVEL_NOTE = "texts <= ~60 characters, eight formatters (colours given as names, numbers - 0 included -, rgb triples and grays), histories <= 14 operations; ASCII letters and blanks only"
 TECHNIQUE = "runtime monitoring: shadow-model (str/list semantics) + SGR terminal model after every operation of a history"
 
 FMT_SPECS = [None, dict(color='RED'), dict(color='GREEN', bold=True), dict(color=100),
              dict(color=None, no_color=True), dict(color=None, bg_color='BLUE'),
-             dict(color=None, underline=True, crossed=True), dict(color=(1, 2, 3), bg_color='g5')]
+             dict(color=None, underline=True, crossed=True), dict(color=(1, 2, 3), bg_color='g5'),
+             # colour number 0 (black), as foreground and as background
+             dict(color=0), dict(color=None, bg_color=0, bold=True)]
 _FMTS = None
 
 
